@@ -2,6 +2,7 @@ import EinxModel.Driver.Util
 import EinxModel.Driver.Registry
 import EinxModel.Driver.Update
 import EinxModel.Driver.Notation
+import EinxModel.Driver.Solve
 import EinxModel.Driver.IR
 /-! Line-protocol driver: one JSON request per input line, one JSON answer per output line. -/
 open Lean Einx.Driver
@@ -11,6 +12,7 @@ def dispatch (j : Json) : R Json := do
   | "ping" => pure (Json.mkObj [("pong", Json.bool true)])
   | "registry" => Einx.Driver.Registry.handle j
   | "notation" => Einx.Driver.Notation.handle j
+  | "solve" | "checksat" | "checkaxes" => Einx.Driver.Solve.handle j
   | "ir_run" | "validate" | "denote" => Einx.Driver.IR.handle j
   | "update_denote" | "update_lower" | "update_get" | "update_addr" | "np_put" | "np_ufunc_at" | "assignments" =>
     Einx.Driver.Update.handle j
